@@ -3,10 +3,12 @@
 mod core;
 mod c01;
 mod c02;
+mod c03;
 mod c13;
 mod c14;
 mod c15;
 mod plonkm;
+mod tamper;
 
 use crate::core::*;
 
@@ -78,6 +80,7 @@ fn main() {
     let code = match id.as_str() {
         "C01" => c01::run(&ctx),
         "C02" => c02::run(&ctx),
+        "C03" => c03::run(&ctx),
         "C13" => c13::run(&ctx),
         "C14" => c14::run(&ctx),
         "C15" => c15::run(&ctx),
